@@ -511,6 +511,7 @@ def run(ctx):
     clone_behaviour(ctx)
     direct_options_objects(ctx)
     clone_over_custom_transport(ctx)
+    clone_invocations_use_clone_options(ctx)
     ctx.sample({"script": [{"k": "client"}, {"k": "clone", "c": 0}, {"k": "tset", "c": 1, "name": "timeout", "value": 5},
                            {"k": "set", "c": 0, "name": "faults", "value": "yes"}]})
 
@@ -573,7 +574,9 @@ def direct_options_objects(ctx):
 def kf_clone_binding_options(f, k):
     """D49: an option that acts inside the shared bindings (soapheaders, prefixes, xstq, wsse), set on a CLONE,
     is not used by the clone's requests - they are built with the ORIGINAL's value."""
-    return (f.get("input") or {}).get("stream") == "clone-behaviour" and f.get("observed") == "the original's value"
+    i = f.get("input") or {}
+    return i.get("stream") == "clone-behaviour" and i.get("option") in ("soapheaders", "prefixes", "xstq", "wsse") and \
+        f.get("observed") == "the original's value"
 
 
 CLASSIFIERS = {"c14_clone_binding_options": kf_clone_binding_options}
@@ -631,6 +634,56 @@ def clone_behaviour(ctx):
                 ctx.fail("an option set on one of a client and its clone does not decide that client's requests",
                          dict(meta, request_of="original"), "the clone's value" if got_c == got_k else repr(got_c),
                          repr(want_c))
+
+
+def clone_invocations_use_clone_options(ctx):
+    """What an invocation THROUGH the clone uses is the clone's: its endpoint, its headers, its nosend, its transport
+    - and the original's invocations keep using the original's, whichever of the two was changed."""
+    from harness.props import c15
+    w = c15.wsdl_two_ops("http://wsdl.invalid/address")
+    for who in ("clone", "original"):
+        tr_o = wsdlkit.RecordingTransport(reply=None)
+        c = wsdlkit.client(w, transport=tr_o, headers={"X-Who": "first"})
+        k = c.clone()
+        target = k if who == "clone" else c
+        tr_n = wsdlkit.RecordingTransport(reply=None)
+        target.set_options(transport=tr_n)         # (a replacement transport brings its own option values:
+        target.set_options(location="http://changed.invalid/x", headers={"X-Who": "changed"})   # set afterwards)
+        meta = {"stream": "clone-invocations", "changed_on": who}
+        ctx.case(common.canon(meta), True)
+        try:
+            del tr_o.sent[:]
+            c.service.f()
+            k.service.g()
+            seen = {}
+            for label, tr in (("old-transport", tr_o), ("new-transport", tr_n)):
+                seen[label] = [[s_["url"], s_["headers"].get("X-Who"), (s_["headers"].get("SOAPAction") or b"").decode()
+                                if isinstance(s_["headers"].get("SOAPAction"), bytes) else s_["headers"].get("SOAPAction")]
+                               for s_ in tr.sent]
+        except Exception as e:
+            seen = "%s: %s" % (type(e).__name__, e)
+        changed = ["http://changed.invalid/x", "changed"]
+        kept = ["http://wsdl.invalid/address", "first"]
+        want = {"old-transport": [(kept if who == "clone" else None), (kept if who == "original" else None)],
+                "new-transport": [(changed if who == "original" else None), (changed if who == "clone" else None)]}
+        want = {"old-transport": [x + ['"urn:act:%s"' % op] for x, op in zip(want["old-transport"], "fg") if x],
+                "new-transport": [x + ['"urn:act:%s"' % op] for x, op in zip(want["new-transport"], "fg") if x]}
+        if seen != want:
+            ctx.fail("an option set on one of a client and its clone does not decide that client's requests",
+                     dict(meta, option="location/headers/transport"), seen, want)
+        # nosend set on one of the two
+        c2 = wsdlkit.client(w, transport=wsdlkit.RecordingTransport(reply=None))
+        k2 = c2.clone()
+        (k2 if who == "clone" else c2).set_options(nosend=True)
+        ctx.case(common.canon(dict(meta, option="nosend")), True)
+        try:
+            got = [type(c2.service.f()).__name__, type(k2.service.f()).__name__]
+        except Exception as e:
+            got = "%s: %s" % (type(e).__name__, e)
+        want2 = ["NoneType", "RequestContext"] if who == "clone" else ["RequestContext", "NoneType"]
+        if got != want2:
+            ctx.fail("an option set on one of a client and its clone does not decide that client's requests",
+                     dict(meta, option="nosend"), got, want2)
 
 
 def clone_over_custom_transport(ctx):
@@ -747,20 +800,22 @@ def values_after_sends_and_private_defaults(ctx):
                 try:
                     for _n in range(rng.randint(1, 2)):
                         c.service.f()
+                    sent = srv.httpd.seen[-1] if srv.httpd.seen else None
+                    # (documents are fetched under the same time limit as messages are sent)
+                    c.options.transport.open(suds.transport.Request(srv.url("/doc.xsd"))).read()
                 except Exception as e:
                     ctx.fail("a request under the configured options failed", {"stream": "after-sends", "history": hist},
                              repr(e), "a request")
                     break
                 want_h, want_t = ({} if hv is None else hv), (90 if tv is None else tv)
                 got = [c.options.headers, c.options.timeout, t.options.headers, t.options.timeout,
-                       sorted(set(spy.timeouts)), given]
+                       sorted(set(spy.timeouts), key=repr), given]
                 want = [want_h, want_t, want_h, want_t, [want_t], hv]
                 if got != want:
                     ctx.fail("an option does not read back as assigned after requests were sent, or the opener was "
                              "given another time limit than the timeout option", {"stream": "after-sends", "history": hist},
                              got, want)
                     break
-                sent = srv.httpd.seen[-1] if srv.httpd.seen else None
                 for k_, v_ in want_h.items():
                     if sent is None or c15.hdr(sent, k_) != [v_]:
                         ctx.fail("the headers option set on the client is not what its transport sends",
@@ -884,6 +939,38 @@ def transport_follows_options(ctx):
             want = ["Basic " + base64.b64encode(("%s:%s" % (user, pw)).encode()).decode()]
             if got != want:
                 ctx.fail("the transport does not use the credentials currently set on the client", meta, got, want)
+        # ... also for the transport that answers a server's challenge (transport.https), request after request
+        import suds.transport.https
+
+        def challenge(h):
+            if h.headers.get("Authorization"):
+                return {"status": 200, "body": b""}
+            return {"status": 401, "body": b"<denied/>", "headers": [("WWW-Authenticate", 'Basic realm="r"')]}
+        origin.httpd.plan = challenge
+        c = wsdlkit.client(w, transport=suds.transport.https.HttpAuthenticated())
+        hist = []
+        for user, pw, via in (("u1", "p1", "set_options"), ("u2", "p2", "options"), ("u2", "p3", "transport.options"),
+                              ("u4", "", "set_options")):
+            if via == "set_options":
+                c.set_options(username=user, password=pw)
+            elif via == "options":
+                c.options.username, c.options.password = user, pw
+            else:
+                c.options.transport.options.username, c.options.transport.options.password = user, pw
+            hist.append([user, pw, via])
+            del origin.httpd.seen[:]
+            meta = {"stream": "credentials-follow/challenge", "history": list(hist)}
+            ctx.case(common.canon(meta), True)
+            try:
+                c.service.f()
+                got = c15.hdr(origin.httpd.seen[-1], "Authorization") if origin.httpd.seen else None
+            except Exception as e:
+                got = repr(e)
+            want = ["Basic " + base64.b64encode(("%s:%s" % (user, pw)).encode()).decode()]
+            if got != want:
+                ctx.fail("the transport does not use the credentials currently set on the client", meta, got, want)
+                break
+        origin.httpd.plan = lambda h: {"status": 200, "body": b""}
     finally:
         for srv in (origin, proxy_a, proxy_b):
             srv.close()
